@@ -15,8 +15,9 @@
 (*   o     one observed step of phase 2: [a, n, verdict, prod, panic]      *)
 (*   tabs  the tables of all nodes after the step (keys judged by trial    *)
 (*         decryption of a message encrypted to x.pk)                      *)
-(*   e     the end of a schedule: [wt, pending, judge]; judge[k][i] =      *)
-(*         [has, fp, dec] for identity Ids[k] and keyper i: a decryption   *)
+(*   e     the end of a schedule: [wt, pending, judge]; wt[r] = nodes      *)
+(*         triggered for round r; judge[id][i] =                           *)
+(*         [has, fp, dec] for identity id and keyper i: a decryption       *)
 (*         key row exists, its fingerprint, it decrypts the message that   *)
 (*         was encrypted to the DKG's eon key for that identity            *)
 (***************************************************************************)
@@ -50,23 +51,30 @@ StepFailed(x, o, tabs) ==
     (IF S_FailedEmpty(x, tabs) THEN {} ELSE {"C07E_FailedSilent"}) \cup
     (IF S_KeysGood(tabs)     THEN {} ELSE {"C07E_KeysGood"})
 
-Enough(x, wt) == Cardinality(wt \cap SuccNodes(x)) >= T
+(* e.wt[r] = the nodes triggered for round r *)
+WtOf(e, r) == SeqSet(e.wt[r])
+Enough(x, S) == Cardinality(S \cap SuccNodes(x)) >= T
+RoundsWith(id) == {r \in G!RoundIdx : id \in G!IdsOf(r)}
+(* the keypers that ever make a share for id *)
+ShareHolders(x, e, id) == UNION {WtOf(e, r) \cap SuccNodes(x) : r \in RoundsWith(id)}
 
-(* whenever at least T keypers that reported success are triggered, every such keyper ends with the
-   key of every identity *)
+(* whenever at least T keypers that reported success are triggered for an identity list, every such
+   keyper ends with the key of every identity of the list *)
 E_AllHaveKeys(x, e, tabs) ==
-    (e.pending = 0 /\ Enough(x, SeqSet(e.wt))) =>
-        \A j \in SuccNodes(x) : \A id \in G!IdSet : tabs[j].keys[id] = "good"
-(* fewer than T triggered share holders: nobody has a key *)
+    e.pending = 0 =>
+        \A r \in G!RoundIdx : Enough(x, WtOf(e, r)) =>
+            \A j \in SuccNodes(x) : \A id \in G!IdsOf(r) : tabs[j].keys[id] = "good"
+(* fewer than T share holders of an identity (over all rounds that carry it): nobody has its key *)
 E_NeverFewer(x, e, tabs) ==
-    (~Enough(x, SeqSet(e.wt))) => \A j \in G!Nodes : \A id \in G!IdSet : tabs[j].keys[id] = "none"
+    \A id \in G!IdSet : Cardinality(ShareHolders(x, e, id)) < T =>
+        \A j \in G!Nodes : tabs[j].keys[id] = "none"
 (* the same key, byte for byte, on every keyper that holds one *)
 E_SameKey(e) ==
-    \A k \in DOMAIN e.judge : \A i, j \in DOMAIN e.judge[k] :
-        (e.judge[k][i].has /\ e.judge[k][j].has) => e.judge[k][i].fp = e.judge[k][j].fp
+    \A id \in DOMAIN e.judge : \A i, j \in DOMAIN e.judge[id] :
+        (e.judge[id][i].has /\ e.judge[id][j].has) => e.judge[id][i].fp = e.judge[id][j].fp
 (* and it decrypts what was encrypted to the eon key the DKG produced *)
 E_Decrypt(e) ==
-    \A k \in DOMAIN e.judge : \A i \in DOMAIN e.judge[k] : e.judge[k][i].has => e.judge[k][i].dec
+    \A id \in DOMAIN e.judge : \A i \in DOMAIN e.judge[id] : e.judge[id][i].has => e.judge[id][i].dec
 
 EndFailed(x, e, tabs) ==
     (IF E_AllHaveKeys(x, e, tabs) THEN {} ELSE {"C07E_AllHaveKeys"}) \cup
@@ -89,7 +97,7 @@ SpecX(s) ==
     [succ |-> SetSeq(sk), pk |-> IF sk = {} THEN NoMat ELSE s.kp[MinOf(sk)].qual]
 
 SpecJudge(hv, x, node) ==
-    [k \in DOMAIN Ids |->
-        [i \in K |-> [has |-> node[i - 1].keys[Ids[k]] # "none", fp |-> hv.mat[i - 1], dec |-> hv.mat[i - 1] = x.pk]]]
+    [id \in G!IdSet |->
+        [i \in K |-> [has |-> node[i - 1].keys[id] # "none", fp |-> hv.mat[i - 1], dec |-> hv.mat[i - 1] = x.pk]]]
 
 =============================================================================
